@@ -1,5 +1,6 @@
 """C14 -- IDL built-in replacements (smooth, median, uniq, rebin) follow IDL semantics."""
 import itertools
+import math
 
 import numpy as np
 from hypothesis import strategies as st
@@ -38,8 +39,11 @@ def values(draw, n, kind):
 @st.composite
 def smooth_case(draw):
     n = draw(st.integers(1, 60))
-    return dict(x=values(draw, n, draw(st.sampled_from(['random', 'random', 'steps', 'const']))), width=draw(st.integers(1, n)),
-                edge=draw(st.booleans()), dtype=draw(st.sampled_from(['f8', 'f4'])))
+    x = values(draw, n, draw(st.sampled_from(['random', 'random', 'steps', 'const'])))
+    if draw(st.integers(0, 5)) == 0:
+        # a huge dynamic range (saturated pixel, cosmic ray): a window mean must depend on its own samples only
+        x[draw(st.integers(0, n - 1))] = draw(st.sampled_from([1e16, -1e18, 1e12, 3e17]))
+    return dict(x=x, width=draw(st.integers(1, n)), edge=draw(st.booleans()), dtype=draw(st.sampled_from(['f8', 'f4'])))
 
 
 def smooth_body(case):
@@ -52,15 +56,18 @@ def smooth_body(case):
     h = w // 2
     xr = x.astype('f8')
     ref = xr.copy()
+    wmax = np.abs(xr).copy()              # largest magnitude inside each point's window (tolerances are per window)
     if w >= 3:
         for i in range(n):
             interior = (i - h >= 0) and (i + h <= n - 1)
             if interior or case['edge']:
-                ref[i] = np.mean([xr[min(max(j, 0), n - 1)] for j in range(i - h, i + h + 1)])
+                win = [xr[min(max(j, 0), n - 1)] for j in range(i - h, i + h + 1)]
+                ref[i] = math.fsum(win) / len(win)
+                wmax[i] = np.abs(win).max()
     with judge('smooth'):
         got = np.asarray(got)
         check(got.shape == x.shape and got.dtype == x.dtype, 'smooth:shape-or-dtype', lambda: dict(shape=got.shape, dtype=str(got.dtype)))
-        tol = (2e-6 if case['dtype'] == 'f4' else 1e-12) * max(1.0, np.abs(xr).max())
+        tol = (2e-6 if case['dtype'] == 'f4' else 1e-12) * np.maximum(1e-300, wmax) * w
         dev = np.abs(got.astype('f8') - ref)
         check(bool(np.all(dev <= tol)), 'smooth:wrong-value', lambda: dict(index=int(dev.argmax()), got=float(got[dev.argmax()]), want=float(ref[dev.argmax()]),
                                                                           width=case['width'], edge=case['edge'], n=n))
@@ -175,9 +182,9 @@ def rebin_case(draw):
             shape.append(m)
             target.append(m)
         ops.append(op)
-    dtype = draw(st.sampled_from(['f8', 'f4', 'i4', 'i2']))
+    dtype = draw(st.sampled_from(['f8', 'f4', 'i4', 'i2', '>f8', '>f4']))       # FITS images arrive big-endian
     n = int(np.prod(shape))
-    if dtype[0] in 'iu':
+    if dtype[-2] in 'iu':
         top = draw(st.sampled_from([100, 32000 if dtype == 'i2' else 2000000000]))      # block sums must not wrap in the input dtype
         x = [draw(st.one_of(st.integers(0, top), st.sampled_from([top, top - 1, 0]))) for _ in range(n)]
     else:
@@ -232,7 +239,7 @@ def rebin_body(case):
         if a.dtype.kind in 'iu':
             ok = np.array_equal(got, want)
         else:
-            tol = (2e-6 if case['dtype'] == 'f4' else 1e-12) * max(1.0, np.abs(a).max())
+            tol = (2e-6 if case['dtype'].endswith('f4') else 1e-12) * max(1.0, np.abs(a).max())
             ok = bool(np.all(np.abs(got.astype('f8') - want.astype('f8')) <= tol))
         check(ok, 'rebin:wrong-values', lambda: dict(shape=case['shape'], target=case['target'], sample=case['sample'], dtype=case['dtype'],
                                                      got=got.tolist(), want=want.tolist()))
